@@ -34,6 +34,9 @@ def run_one(prop: str, tier: str) -> int:
             if rep.rules and not rep.rules[-1].obs:
                 rep.rules.pop()
         renamed = {f"{rel}::{q}": m for rel, mo in prog.modules.items() for q, m in getattr(mo, "alpha", {}).items()}
+        if getattr(prog, "unextracted", None):
+            rep.analysed["helpers_inlined"] = {"note": "new single-use helpers spliced back into their only caller before analysis (alpha.unextract)",
+                                               "helpers": [f"{rel}::{q}" for rel, q in prog.unextracted]}
         if renamed:
             rep.analysed["alpha_normalised"] = {"note": "local variables renamed towards the reference naming before analysis "
                                                 "(alpha-equivalent program)", "functions": renamed}
